@@ -251,7 +251,7 @@ func vStream(ver byte) int {
 	return s
 }
 
-func vCheckHeader(h vHeader, ver byte, op byte, stream int, tracing, payload bool) {
+func vCheckHeader(h vHeader, ver byte, op byte, stream int, tracing bool, pay vPay) {
 	vAssert(h.ok, "C03/header/present")
 	if !h.ok {
 		return
@@ -261,35 +261,61 @@ func vCheckHeader(h vHeader, ver byte, op byte, stream int, tracing, payload boo
 	if tracing {
 		want |= 0x02
 	}
-	if payload {
+	if pay.n > 0 {
 		want |= 0x04
 	}
 	if ver == 5 {
 		want |= 0x10 // beta flag: v5 as this driver speaks it
 	}
-	vAssert(h.flags == want, "C03/header/flags")
+	if pay.n == 0 && ver >= 4 {
+		// empty payload: announcing an empty map or announcing nothing are both well-formed
+		vAssert(h.flags&^0x04 == want, "C03/header/flags")
+	} else {
+		vAssert(h.flags == want, "C03/header/flags")
+	}
 	vAssert(h.stream == stream, "C03/header/stream")
 	vAssert(h.op == op, "C03/header/opcode")
 	vAssert(h.length == len(h.body), "C03/header/length-equals-body")
 }
 
-func vPayload(ver byte) (map[string][]byte, string, []byte) {
-	if ver >= 4 && vBool("with_payload") {
-		k := vStringN("pk", 1)
-		v := vBytesN("pv", 1)
-		return map[string][]byte{k: v}, k, v
-	}
-	return nil, "", nil
+// vPay is the custom payload asked for: n = -1 nil map, 0 non-nil map without entries, 1 one entry.
+type vPay struct {
+	m map[string][]byte
+	n int
+	k string
+	v []byte
 }
 
-func (d *vDec) checkPayload(has bool, k string, v []byte) {
-	if !has {
+func vPayload(ver byte) vPay {
+	switch vChoose("payload_kind", 3) {
+	case 1:
+		// a non-nil map without entries carries nothing: it is expressible in every version, either as
+		// "no payload" (flag clear, no map) or as an announced empty map (flag set, count 0)
+		return vPay{m: map[string][]byte{}, n: 0}
+	case 2:
+		if ver >= 4 {
+			k := vStringN("pk", 1)
+			v := vBytesN("pv", 1)
+			return vPay{m: map[string][]byte{k: v}, n: 1, k: k, v: v}
+		}
+	}
+	return vPay{n: -1}
+}
+
+// checkPayload decodes the [bytes map] exactly when the header announces it (flag 0x04), as a spec decoder does.
+func (d *vDec) checkPayload(h vHeader, p vPay) {
+	if h.flags&0x04 == 0 {
+		vAssert(p.n <= 0, "C03/custom-payload")
 		return
 	}
-	n := d.u16()
+	n := int(d.u16())
+	if p.n <= 0 {
+		vAssert(!d.bad && n == 0 && p.n == 0, "C03/custom-payload")
+		return
+	}
 	gk := d.str()
 	kind, gv := d.bytesV(false)
-	vAssert(!d.bad && n == 1 && gk == k && kind == vkBytes && refBytesEq(gv, v), "C03/custom-payload")
+	vAssert(!d.bad && n == 1 && gk == p.k && kind == vkBytes && refBytesEq(gv, p.v), "C03/custom-payload")
 }
 
 func vQueryParams(ver byte, nvals int, named bool) (queryParams, vParams) {
@@ -382,7 +408,7 @@ func vh_req_startup() {
 		return
 	}
 	h := vDecodeHeader(frame, ver)
-	vCheckHeader(h, ver, 0x01, stream, false, false)
+	vCheckHeader(h, ver, 0x01, stream, false, vPay{n: -1})
 	d := &vDec{b: h.body}
 	n := int(d.u16())
 	got := map[string]string{}
@@ -403,14 +429,14 @@ func vh_req_options_register_auth() {
 		frame, refused := vBuild(&writeOptionsFrame{}, ver, stream, false)
 		vAssert(!refused, "C03/options/built")
 		h := vDecodeHeader(frame, ver)
-		vCheckHeader(h, ver, 0x05, stream, false, false)
+		vCheckHeader(h, ver, 0x05, stream, false, vPay{n: -1})
 		vAssert(len(h.body) == 0, "C03/options/empty-body")
 	case 1:
 		e1 := vStringN("ev", vBound("S"))
 		frame, refused := vBuild(&writeRegisterFrame{events: []string{"TOPOLOGY_CHANGE", e1}}, ver, stream, false)
 		vAssert(!refused, "C03/register/built")
 		h := vDecodeHeader(frame, ver)
-		vCheckHeader(h, ver, 0x0B, stream, false, false)
+		vCheckHeader(h, ver, 0x0B, stream, false, vPay{n: -1})
 		d := &vDec{b: h.body}
 		n := d.u16()
 		a, b := d.str(), d.str()
@@ -428,7 +454,7 @@ func vh_req_options_register_auth() {
 		frame, refused := vBuild(&writeAuthResponseFrame{data: data}, ver, stream, false)
 		vAssert(!refused, "C03/auth-response/built")
 		h := vDecodeHeader(frame, ver)
-		vCheckHeader(h, ver, 0x0F, stream, false, false)
+		vCheckHeader(h, ver, 0x0F, stream, false, vPay{n: -1})
 		d := &vDec{b: h.body}
 		kind, got := d.bytesV(false)
 		vAssert(!d.bad && d.pos == len(d.b) && kind == wantKind && refBytesEq(got, data), "C03/auth-response/token")
@@ -440,18 +466,18 @@ func vh_req_query() {
 	stream := vStream(ver)
 	tracing := vBool("tracing")
 	stmt := vStringN("stmt", vBound("S"))
-	payload, pk, pv := vPayload(ver)
+	pay := vPayload(ver)
 	// QUERY frames carry no bound values in this driver (values are only sent with EXECUTE)
 	q, w := vQueryParams(ver, 0, false)
-	frame, refused := vBuild(&writeQueryFrame{statement: stmt, params: q, customPayload: payload}, ver, stream, tracing)
-	vAssert(!refused, "C03/query/built")
+	frame, refused := vBuild(&writeQueryFrame{statement: stmt, params: q, customPayload: pay.m}, ver, stream, tracing)
+	vAssert(!refused || (pay.n == 0 && ver < 4), "C03/query/built") // refusing an empty payload before v4 is not a malformed frame
 	if refused {
 		return
 	}
 	h := vDecodeHeader(frame, ver)
-	vCheckHeader(h, ver, 0x07, stream, tracing, payload != nil)
+	vCheckHeader(h, ver, 0x07, stream, tracing, pay)
 	d := &vDec{b: h.body}
-	d.checkPayload(payload != nil, pk, pv)
+	d.checkPayload(h, pay)
 	vAssert(d.longStr() == stmt && !d.bad, "C03/query/statement")
 	vCheckParams(d, ver, w)
 	vAssert(d.pos == len(d.b), "C03/query/body-consumed-exactly")
@@ -462,24 +488,24 @@ func vh_req_prepare() {
 	ver := byte(vBound("version"))
 	stream := vStream(ver)
 	stmt := vStringN("stmt", vBound("S"))
-	payload, pk, pv := vPayload(ver)
+	pay := vPayload(ver)
 	ks := ""
 	if vBool("with_keyspace") {
 		ks = vStringN("ks", 1)
 	}
-	frame, refused := vBuild(&writePrepareFrame{statement: stmt, keyspace: ks, customPayload: payload}, ver, stream, false)
+	frame, refused := vBuild(&writePrepareFrame{statement: stmt, keyspace: ks, customPayload: pay.m}, ver, stream, false)
 	if ks != "" && ver < 5 {
 		vAssert(refused, "C03/prepare/keyspace-not-expressible-before-v5-is-refused")
 		return
 	}
-	vAssert(!refused, "C03/prepare/built")
+	vAssert(!refused || (pay.n == 0 && ver < 4), "C03/prepare/built") // refusing an empty payload before v4 is not a malformed frame
 	if refused {
 		return
 	}
 	h := vDecodeHeader(frame, ver)
-	vCheckHeader(h, ver, 0x09, stream, false, payload != nil)
+	vCheckHeader(h, ver, 0x09, stream, false, pay)
 	d := &vDec{b: h.body}
-	d.checkPayload(payload != nil, pk, pv)
+	d.checkPayload(h, pay)
 	vAssert(d.longStr() == stmt && !d.bad, "C03/prepare/statement")
 	if ver >= 5 {
 		fl := uint32(d.i32())
@@ -498,7 +524,7 @@ func vh_req_execute() {
 	stream := vStream(ver)
 	tracing := vBool("tracing")
 	id := vBytesN("id", vBound("S"))
-	payload, pk, pv := vPayload(ver)
+	pay := vPayload(ver)
 	nvals := vBound("nvals")
 	named := vBound("named") == 1
 	var q queryParams
@@ -510,7 +536,7 @@ func vh_req_execute() {
 	} else {
 		q, w = vQueryParams(ver, nvals, named)
 	}
-	frame, refused := vBuild(&writeExecuteFrame{preparedID: id, params: q, customPayload: payload}, ver, stream, tracing)
+	frame, refused := vBuild(&writeExecuteFrame{preparedID: id, params: q, customPayload: pay.m}, ver, stream, tracing)
 	if !vExpressible(ver, w.values) {
 		// named values before v3 / unset before v4 have no encoding: must not be sent as something else
 		vWitness("named-before-v3", named && ver < 3)
@@ -518,14 +544,14 @@ func vh_req_execute() {
 		vAssert(refused, "C03/execute/inexpressible-value-is-refused")
 		return
 	}
-	vAssert(!refused, "C03/execute/built")
+	vAssert(!refused || (pay.n == 0 && ver < 4), "C03/execute/built") // refusing an empty payload before v4 is not a malformed frame
 	if refused {
 		return
 	}
 	h := vDecodeHeader(frame, ver)
-	vCheckHeader(h, ver, 0x0A, stream, tracing, payload != nil)
+	vCheckHeader(h, ver, 0x0A, stream, tracing, pay)
 	d := &vDec{b: h.body}
-	d.checkPayload(payload != nil, pk, pv)
+	d.checkPayload(h, pay)
 	vAssert(refBytesEq(d.shortBytes(), id) && !d.bad, "C03/execute/prepared-id")
 	if ver == 1 {
 		n := int(d.u16())
@@ -548,11 +574,11 @@ func vh_req_batch() {
 	ver := byte(vBound("version"))
 	vAssume(ver >= 2)
 	stream := vStream(ver)
-	payload, pk, pv := vPayload(ver)
+	pay := vPayload(ver)
 	typ := BatchType(vU8("batch_type"))
 	vAssume(typ <= 2)
 	nst := vBound("nstmts")
-	w := &writeBatchFrame{typ: typ, consistency: Consistency(vU16("cons")), customPayload: payload}
+	w := &writeBatchFrame{typ: typ, consistency: Consistency(vU16("cons")), customPayload: pay.m}
 	type wantStmt struct {
 		prepared bool
 		stmt     string
@@ -605,14 +631,14 @@ func vh_req_batch() {
 		vAssert(refused, "C03/batch/inexpressible-value-is-refused")
 		return
 	}
-	vAssert(!refused, "C03/batch/built")
+	vAssert(!refused || (pay.n == 0 && ver < 4), "C03/batch/built") // refusing an empty payload before v4 is not a malformed frame
 	if refused {
 		return
 	}
 	h := vDecodeHeader(frame, ver)
-	vCheckHeader(h, ver, 0x0D, stream, false, payload != nil)
+	vCheckHeader(h, ver, 0x0D, stream, false, pay)
 	d := &vDec{b: h.body}
-	d.checkPayload(payload != nil, pk, pv)
+	d.checkPayload(h, pay)
 	vAssert(d.u8() == byte(typ), "C03/batch/type")
 	n := int(d.u16())
 	vAssert(n == nst, "C03/batch/statement-count")
